@@ -36,3 +36,8 @@ func rtEvLogOn()        { runtime.VerifEvLogOn() }
 func rtEvLog() []uint64 { return runtime.VerifEvLog() }
 
 const rtEnabled = true
+
+// rtYield is a seeded yield decided inside the runtime: no harness lock, no
+// atomic of the harness - nothing the race detector would take for
+// synchronisation between the goroutines that call it.
+func rtYield(site uint32) { runtime.VerifYield(site) }
